@@ -4,13 +4,18 @@
 (* run_once and the match in run) against histories of file edits.            *)
 (* A file content is a valid document (version v, refresh rate r; r = 0 means *)
 (* "no refresh_rate key"), one of two broken texts, or the file is absent.    *)
-(* Every edit bumps the modification time (the harness sets mtimes            *)
-(* explicitly), including rewriting the same text ("touch").                  *)
+(* Every edit gives the file a modification time different from the one it    *)
+(* had and from the one the reloader remembers (the harness sets mtimes        *)
+(* explicitly) - later or *earlier* (a restored backup, cp -p, a clock step) - *)
+(* including rewriting the same text ("touch").  An edit that reproduces the   *)
+(* remembered mtime exactly is outside the model: the mtime shortcut cannot    *)
+(* see it by design.                                                           *)
 (* Poll transcribes run_once: mtime comparison, text comparison, the source   *)
 (* text is remembered *before* it is parsed, then parse / apply / new rate.   *)
 (***************************************************************************)
 EXTENDS Integers, Sequences, TLC
-CONSTANTS Vers, Rates, MaxSteps     \* Rates includes 0 = "no refresh_rate in the file"
+CONSTANTS Vers, Rates, MaxSteps,    \* Rates includes 0 = "no refresh_rate in the file"
+          MTimes                     \* the modification times an edit may choose from
 VARIABLES file,        \* [c |-> content, m |-> mtime]
           rl,          \* reloader memory: [src |-> content, mod |-> mtime]
           active,      \* version of the configuration the logger runs
@@ -25,15 +30,15 @@ Broken(i)   == [k |-> "broken", v |-> i, r |-> 0]
 Contents == {Valid(v, r) : v \in Vers, r \in Rates} \cup {Broken(1), Broken(2)}
 Absent == [k |-> "absent", v |-> 0, r |-> 0]
 Init == \E v \in Vers, r \in Rates \ {0} :
-          /\ file = [c |-> Valid(v, r), m |-> 1]
-          /\ rl = [src |-> Valid(v, r), mod |-> 1]
+          /\ file = [c |-> Valid(v, r), m |-> 2]
+          /\ rl = [src |-> Valid(v, r), mod |-> 2]
           /\ active = v /\ rate = r /\ alive = TRUE /\ swaps = 0 /\ ret = "none" /\ steps = 0
           /\ lastPolled = Valid(v, r)
           /\ hist = <<[op |-> "init", c |-> Valid(v, r)]>>
 Edit == /\ steps < MaxSteps /\ steps' = steps + 1 /\ alive
-        /\ \E c \in Contents \cup {Absent} :
-             /\ file' = [c |-> c, m |-> file.m + 1]   \* includes rewrite-same ("touch")
-             /\ hist' = Append(hist, [op |-> "edit", c |-> c, m |-> file.m + 1])
+        /\ \E c \in Contents \cup {Absent}, m \in MTimes \ {file.m, rl.mod} :
+             /\ file' = [c |-> c, m |-> m]   \* includes rewrite-same ("touch") and backdated files
+             /\ hist' = Append(hist, [op |-> "edit", c |-> c, m |-> m])
         /\ UNCHANGED <<rl, active, rate, alive, swaps, ret, lastPolled>>
 Poll ==
   /\ alive /\ steps < MaxSteps /\ steps' = steps + 1
